@@ -33,8 +33,8 @@ def demo(path):
 def main():
     props = sys.argv[1:]
     if not os.path.isdir(WT):
-        sh(f"git -C /repo worktree add --detach {WT} faf76e84")
-    sh(f"git -C {WT} checkout -q --detach faf76e84 && git -C {WT} checkout -- .")
+        sh(f"git -C /repo worktree add --detach {WT} 67dd33a6")
+    sh(f"git -C {WT} checkout -q --detach 67dd33a6 && git -C {WT} checkout -- .")
     base_file = f"{OUT}/_baseline.json"
     os.makedirs(OUT, exist_ok=True)
     if os.path.exists(base_file):
@@ -74,7 +74,7 @@ def main():
                     ran=dict(demo_clean_exit=rc_clean, demo_patched_exit=rc_pat, demo_patched_tail=out_pat[-300:],
                              suite_patched=dict(passed=st["passed"], failed=st["failed"], failed_ids=st["failed_ids"]),
                              suite_clean=dict(passed=base["passed"], failed=base["failed"], failed_ids=base["failed_ids"]),
-                             how=f"scratch worktree {WT} at pinned commit faf76e84; suite: pytest -n 10 with a seeding plugin "
+                             how=f"scratch worktree {WT} at pinned commit 67dd33a6; suite: pytest -n 10 with a seeding plugin "
                                  "(random parametrize ids otherwise differ between xdist workers) and /venv/bin on PATH"))
         print(prop, k, "CONFIRMED" if ok else "REJECTED", rc_clean, rc_pat, st["passed"], st["failed"], st["failed_ids"], flush=True)
         if ok:
